@@ -35,7 +35,13 @@
                                  whatever its offset; FALSE = "zero offsets carry no information":
                                  streams at 0 (what Truncate = truncateJob leaves) and all-zero jobs
                                  are skipped, so {a:1, b:0} comes back as {a:1} -- never held
-      The D_ switches are FALSE and M_ZeroOffsetsWritten is TRUE in every configuration that describes the code.  The check also runs each mutant
+        M_TmpStartsEmpty         (mechanism, TRUE = the code) the temp file of a save starts empty: offsetDB.save
+                                 opens a fresh random name with O_TRUNC, offset.Save truncates its fixed
+                                 name.  A temp file SURVIVES a save whose rename failed (and a crash); the
+                                 mutant FALSE = "fixed name, no truncation" reuses that leftover: a later
+                                 SHORTER snapshot (a job went away: RemoveJob) overwrites only its head, and
+                                 head + stale tail replaces the good file
+      The D_ switches are FALSE and the M_ mechanisms are TRUE in every configuration that describes the code.  The check also runs each mutant
       and TLC MUST reject it (FailedStepKeepsOld / DurableBeforeReplace / AlwaysLoadable violated): this
       keeps "a failed step is never followed by the rename" and "fsync before rename" shown necessary,
       and the mutant's counterexample is a fault schedule that is replayed on the real code.
@@ -59,6 +65,8 @@ CONSTANTS Site,                      \* "file" | "generic"
           D_RenameAfterFailedStep,   \* MUTANT (pre-f12db3f): Write/Sync errors are logged, Rename still happens
           D_NoFsync,                 \* MUTANT (pre-5cb7036): offset.Save has no fsync before Rename
           M_ZeroOffsetsWritten,      \* mechanism: offset 0 is written like any other offset (FALSE = mutant)
+          M_TmpStartsEmpty,          \* mechanism: fresh temp name / O_TRUNC (FALSE = mutant: fixed name, no truncation)
+          CLen(_),                   \* size of a content: tokens here (TokLen), bytes in OffsetsFileTrace (SegLen)
           MidSaveCommits,            \* commits may interleave with the steps of a save
           CrashAction,               \* explore an explicit Crash step as well
           DoExport,                  \* print replayable schedules
@@ -73,7 +81,7 @@ VARIABLES
   \* file system
   dir, curDur, vol, base, keep, nextIno,
   \* the saving goroutine (o.mu held from PBegin to the return)
-  pc, fd, tmpName, idx, buf, failed, bad,
+  pc, fd, fpos, tmpName, idx, buf, failed, bad,    \* fpos: file position of the descriptor fd
   \* environment and history
   jobs,      \* jobs[j][s] : offset of stream s of job j, -1 = none            (Job.offsets, under Job.mu)
   held,      \* held[j] : every vector job j has held so far
@@ -84,7 +92,7 @@ VARIABLES
   crashed
 
 fsvars == <<dir, curDur, vol, base, keep, nextIno>>
-pvars  == <<pc, fd, tmpName, idx, buf, failed, bad>>
+pvars  == <<pc, fd, fpos, tmpName, idx, buf, failed, bad>>
 evars  == <<jobs, held, ncommits, nsaves, nfaults, sched, sfail, mid, crashed>>
 vars   == <<fsvars, pvars, evars>>
 
@@ -122,13 +130,19 @@ FsOpen(n, trunc) ==                      \* open(n, O_CREAT [|O_TRUNC]) succeede
   /\ base' = IF dir[n] = 0 THEN [base EXCEPT ![i] = <<>>] ELSE base
   /\ curDur' = IF n = "cur" THEN curDur \cup {i} ELSE curDur
 
-FsWrite(i, data) ==                      \* data = what reached the file
-  /\ vol' = [vol EXCEPT ![i] = @ \o data]
-  /\ UNCHANGED <<dir, curDur, base, keep, nextIno>>
+TokLen(c) == Len(c)
+Min(a, b) == IF a < b THEN a ELSE b
+\* the content c after writing d at position p (token granularity): overwrites, extends when it reaches the end
+Over(c, p, d) == SubSeq(c, 1, p) \o d \o SubSeq(c, p + Len(d) + 1, Len(c))
+
+FsWrite(i, res, p) ==                    \* a write at position p that left the content res
+  /\ vol' = [vol EXCEPT ![i] = res]
+  /\ keep' = [keep EXCEPT ![i] = Min(@, p)]
+  /\ UNCHANGED <<dir, curDur, base, nextIno>>
 
 FsSync(i) ==                             \* fsync / fdatasync succeeded
   /\ base' = [base EXCEPT ![i] = vol[i]]
-  /\ keep' = [keep EXCEPT ![i] = Len(vol[i])]
+  /\ keep' = [keep EXCEPT ![i] = CLen(vol[i])]
   /\ UNCHANGED <<dir, curDur, vol, nextIno>>
 
 FsRename(a, b) ==                        \* rename succeeded (atomic; durability of the entry not implied)
@@ -141,7 +155,7 @@ FsUnlink(a) ==
   /\ curDur' = IF a = "cur" THEN curDur \cup {0} ELSE curDur
   /\ UNCHANGED <<vol, base, keep, nextIno>>
 
-Durable(i) == base[i] = vol[i] /\ keep[i] = Len(vol[i])
+Durable(i) == base[i] = vol[i] /\ keep[i] = CLen(vol[i])
 
 \* every content a crash may leave in a sequence c whose first k tokens are safe
 PrefixViews(c, k) == {SubSeq(c, 1, n) : n \in k..Len(c)} \cup {Append(SubSeq(c, 1, n), Torn) : n \in k..(Len(c) - 1)}
@@ -167,30 +181,32 @@ Load(c) ==
 
 -----------------------------------------------------------------------------
 (* 2. the save protocol; every P-action defines fsvars' and pvars' *)
-TmpOf(k) == IF Site = "file" THEN "t" \o ToString(k) ELSE "t1"    \* fresh random name | fixed ".tmp"
+TmpOf(k) == IF Site = "file" /\ M_TmpStartsEmpty THEN "t" \o ToString(k) ELSE "t1"    \* fresh random name | fixed name
 Relevant == {"open", "write", "sync"}                              \* the steps FailedStepKeepsOld talks about
 
 PBegin ==      \* o.mu.Lock (file) / call of Save (generic)
   /\ pc = "idle"
   /\ pc' = "open" /\ failed' = {} /\ buf' = <<>> /\ idx' = 1
-  /\ UNCHANGED <<fd, tmpName, bad>> /\ UNCHANGED fsvars
+  /\ UNCHANGED <<fd, fpos, tmpName, bad>> /\ UNCHANGED fsvars
 
-POpen(ok, name) ==
+POpen(ok, name) ==    \* O_CREATE|O_TRUNC (the mutant of M_TmpStartsEmpty: O_CREATE only); the position starts at 0
   /\ pc = "open"
   /\ tmpName' = name
-  /\ IF ok THEN /\ FsOpen(name, TRUE) /\ fd' = OpenTarget(name) /\ pc' = "snap" /\ failed' = failed
+  /\ IF ok THEN /\ FsOpen(name, M_TmpStartsEmpty) /\ fd' = OpenTarget(name) /\ pc' = "snap" /\ failed' = failed
            ELSE /\ UNCHANGED fsvars /\ fd' = 0 /\ pc' = "idle" /\ failed' = failed \cup {"open"}   \* return
+  /\ fpos' = 0
   /\ UNCHANGED <<idx, buf, bad>>
 
 PSnap ==       \* one iteration of `for _, job := range snapshot` under job.mu (generic: the value passed in)
   /\ pc = "snap"
   /\ IF idx <= NJobs THEN /\ buf' = buf \o Entry(idx, jobs[idx]) /\ idx' = idx + 1 /\ pc' = pc
                      ELSE /\ pc' = "write" /\ UNCHANGED <<buf, idx>>
-  /\ UNCHANGED <<fd, tmpName, failed, bad>> /\ UNCHANGED fsvars
+  /\ UNCHANGED <<fd, fpos, tmpName, failed, bad>> /\ UNCHANGED fsvars
 
-PWrite(ok, data) ==
+PWrite(ok, res, n) == \* one Write at the descriptor's position: res = the file's content afterwards, n = units written
   /\ pc = "write"
-  /\ FsWrite(fd, data)
+  /\ FsWrite(fd, res, fpos)
+  /\ fpos' = fpos + n
   /\ IF ok THEN /\ failed' = failed
                 /\ pc' = IF Site = "generic" /\ D_NoFsync THEN "close" ELSE "sync"
            ELSE /\ failed' = failed \cup {"write"}
@@ -207,13 +223,13 @@ PSync(ok) ==
                 /\ pc' = IF Site = "generic" THEN "close"
                          ELSE IF D_RenameAfterFailedStep THEN "rename"                  \* mutant: error only logged
                          ELSE "unlink"
-  /\ UNCHANGED <<fd, tmpName, idx, buf, bad>>
+  /\ UNCHANGED <<fd, fpos, tmpName, idx, buf, bad>>
 
 PUnlink(ok) == \* `_ = os.Remove(tmp)` on the error path of offsetDB.save; its own error is ignored
   /\ pc = "unlink"
   /\ IF ok THEN FsUnlink(tmpName) ELSE UNCHANGED fsvars
   /\ pc' = "close"
-  /\ UNCHANGED <<fd, tmpName, idx, buf, failed, bad>>
+  /\ UNCHANGED <<fd, fpos, tmpName, idx, buf, failed, bad>>
 
 PRename(ok) ==
   /\ pc = "rename"
@@ -222,21 +238,21 @@ PRename(ok) ==
                   \cup (IF ok /\ ~Durable(i) THEN {"replaced_by_undurable"} ELSE {})
   /\ IF ok THEN FsRename(tmpName, "cur") ELSE UNCHANGED fsvars
   /\ pc' = IF Site = "file" THEN "close" ELSE "idle"
-  /\ UNCHANGED <<fd, tmpName, idx, buf, failed>>
+  /\ UNCHANGED <<fd, fpos, tmpName, idx, buf, failed>>
 
 PClose(ok) ==  \* the descriptor is released whether or not close reports an error; the error is ignored/logged
   /\ pc = "close"
   /\ fd' = 0
   /\ pc' = IF Site = "file" THEN "idle" ELSE IF failed \cap Relevant = {} THEN "rename" ELSE "idle"
-  /\ UNCHANGED <<tmpName, idx, buf, failed, bad>> /\ UNCHANGED fsvars
+  /\ UNCHANGED <<fpos, tmpName, idx, buf, failed, bad>> /\ UNCHANGED fsvars
 
 -----------------------------------------------------------------------------
 (* environment *)
 CanFail(step) == step \in Faults /\ nfaults < MaxFaults
 Outcomes(step) == IF CanFail(step) THEN {TRUE, FALSE} ELSE {TRUE}
 
-Commit(j, s) ==
-  /\ ncommits < MaxCommits
+Commit(j, s) ==       \* a removed job (RemoveJob) receives no commits: jobProvider.commit finds no job and returns
+  /\ ncommits < MaxCommits /\ HasOffsets(jobs[j])
   /\ MidSaveCommits \/ pc = "idle"
   /\ LET v == [jobs[j] EXCEPT ![s] = IF @ = -1 THEN 1 ELSE @ + 1] IN
        /\ jobs' = [jobs EXCEPT ![j] = v]
@@ -257,6 +273,16 @@ Truncate(j) == \* jobProvider.truncateJob: under the job lock every stream of th
   /\ mid' = (mid \/ pc # "idle")
   /\ sched' = IF mid \/ pc # "idle" THEN <<>> ELSE Append(sched, <<"t", j, 0>>)
   /\ UNCHANGED <<nsaves, nfaults, sfail, crashed>> /\ UNCHANGED fsvars /\ UNCHANGED pvars
+
+RemoveJob(j) == \* jobProvider.deleteJobAndUnlock (the watched file is gone): the job leaves jp.jobs, the next
+                \* snapshot has no entry for it; "no offsets" becomes a legitimate reading for this source
+  /\ Site = "file" /\ ncommits < MaxCommits
+  /\ pc = "idle" /\ HasOffsets(jobs[j])
+  /\ jobs' = [jobs EXCEPT ![j] = EmptyVec]
+  /\ held' = [held EXCEPT ![j] = @ \cup {EmptyVec}]
+  /\ ncommits' = ncommits + 1
+  /\ sched' = IF mid THEN <<>> ELSE Append(sched, <<"r", j, 0>>)
+  /\ UNCHANGED <<nsaves, nfaults, sfail, mid, crashed>> /\ UNCHANGED fsvars /\ UNCHANGED pvars
 
 Begin == /\ nsaves < MaxSaves /\ PBegin /\ nsaves' = nsaves + 1 /\ sfail' = {}
          /\ sched' = sched
@@ -279,7 +305,7 @@ Crash ==       \* power loss: the durable state becomes the state
          /\ base' = IF i = 0 THEN base ELSE [base EXCEPT ![i] = c]
          /\ keep' = IF i = 0 THEN keep ELSE [keep EXCEPT ![i] = Len(c)]
   /\ crashed' = TRUE /\ pc' = "crashed" /\ fd' = 0
-  /\ UNCHANGED <<nextIno, tmpName, idx, buf, failed, bad, jobs, held, ncommits, nsaves, nfaults, sched, mid, sfail>>
+  /\ UNCHANGED <<nextIno, fpos, tmpName, idx, buf, failed, bad, jobs, held, ncommits, nsaves, nfaults, sched, mid, sfail>>
 
 Init ==
   /\ dir = [n \in Names |-> IF n = "cur" THEN 1 ELSE 0]
@@ -288,7 +314,7 @@ Init ==
   /\ base = vol
   /\ keep = [i \in Inodes |-> Len(vol[i])]
   /\ nextIno = 2
-  /\ pc = "idle" /\ fd = 0 /\ tmpName = "t1" /\ idx = 1 /\ buf = <<>> /\ failed = {} /\ bad = {}
+  /\ pc = "idle" /\ fd = 0 /\ fpos = 0 /\ tmpName = "t1" /\ idx = 1 /\ buf = <<>> /\ failed = {} /\ bad = {}
   /\ jobs = InitVec /\ held = [j \in Jobs |-> {InitVec[j]}]
   /\ ncommits = 0 /\ nsaves = 0 /\ nfaults = 0 /\ sched = <<>> /\ mid = FALSE /\ crashed = FALSE
   /\ sfail = {}
@@ -297,11 +323,12 @@ Next ==
   /\ ~crashed
   /\ \/ \E j \in Jobs, s \in Streams : Commit(j, s)
      \/ \E j \in Jobs : Truncate(j)
+     \/ \E j \in Jobs : RemoveJob(j)
      \/ Begin
      \/ \E ok \in Outcomes("open")   : Do(POpen(ok, TmpOf(nsaves)), ok, "open")
      \/ Do(PSnap, TRUE, "snap")
-     \/ Do(PWrite(TRUE, buf), TRUE, "write")
-     \/ CanFail("write") /\ \E d \in Partials(buf) : Do(PWrite(FALSE, d), FALSE, "write")
+     \/ Do(PWrite(TRUE, Over(vol[fd], fpos, buf), Len(buf)), TRUE, "write")
+     \/ CanFail("write") /\ \E d \in Partials(buf) : Do(PWrite(FALSE, Over(vol[fd], fpos, d), Len(d)), FALSE, "write")
      \/ \E ok \in Outcomes("sync")   : Do(PSync(ok), ok, "sync")
      \/ \E ok \in Outcomes("rename") : Do(PRename(ok), ok, "rename")
      \/ \E ok \in Outcomes("close")  : Do(PClose(ok), ok, "close")
@@ -344,6 +371,8 @@ Steps(sc) == IF sc = <<>> THEN <<>>
                      THEN [op |-> "commit", job |-> Head(sc)[2], stream |-> Head(sc)[3], fails |-> {}]
                      ELSE IF Head(sc)[1] = "t"
                      THEN [op |-> "truncate", job |-> Head(sc)[2], stream |-> 0, fails |-> {}]
+                     ELSE IF Head(sc)[1] = "r"
+                     THEN [op |-> "remove", job |-> Head(sc)[2], stream |-> 0, fails |-> {}]
                      ELSE [op |-> "save", job |-> 0, stream |-> 0, fails |-> Head(sc)[2]])>> \o Steps(Tail(sc))
 ExportRec == [site |-> Site, steps |-> Steps(sched),
               mayReplace |-> [k \in 1..Len(SaveFails(sched)) |-> SaveFails(sched)[k] \cap Relevant = {}],
